@@ -76,15 +76,18 @@ Proofs/VarProofs.vos Proofs/VarProofs.vok Proofs/VarProofs.required_vos: Proofs/
 Proofs/SegProofs.vo Proofs/SegProofs.glob Proofs/SegProofs.v.beautified Proofs/SegProofs.required_vo: Proofs/SegProofs.v Compiler/Emit.vo Proofs/Utf8Proofs.vo Proofs/QuoteProofs.vo Proofs/ChunkProofs.vo Proofs/EmitProofs.vo Proofs/PassThroughProofs.vo Proofs/DynamicProofs.vo Proofs/StaticProofs.vo
 Proofs/SegProofs.vio: Proofs/SegProofs.v Compiler/Emit.vio Proofs/Utf8Proofs.vio Proofs/QuoteProofs.vio Proofs/ChunkProofs.vio Proofs/EmitProofs.vio Proofs/PassThroughProofs.vio Proofs/DynamicProofs.vio Proofs/StaticProofs.vio
 Proofs/SegProofs.vos Proofs/SegProofs.vok Proofs/SegProofs.required_vos: Proofs/SegProofs.v Compiler/Emit.vos Proofs/Utf8Proofs.vos Proofs/QuoteProofs.vos Proofs/ChunkProofs.vos Proofs/EmitProofs.vos Proofs/PassThroughProofs.vos Proofs/DynamicProofs.vos Proofs/StaticProofs.vos
+Properties/C02.vo Properties/C02.glob Properties/C02.v.beautified Properties/C02.required_vo: Properties/C02.v Base/GoStr.vo Proofs/EscapeProofs.vo Compiler/Emit.vo Proofs/EmitProofs.vo Proofs/DynamicProofs.vo Proofs/SegProofs.vo
+Properties/C02.vio: Properties/C02.v Base/GoStr.vio Proofs/EscapeProofs.vio Compiler/Emit.vio Proofs/EmitProofs.vio Proofs/DynamicProofs.vio Proofs/SegProofs.vio
+Properties/C02.vos Properties/C02.vok Properties/C02.required_vos: Properties/C02.v Base/GoStr.vos Proofs/EscapeProofs.vos Compiler/Emit.vos Proofs/EmitProofs.vos Proofs/DynamicProofs.vos Proofs/SegProofs.vos
 Properties/C01.vo Properties/C01.glob Properties/C01.v.beautified Properties/C01.required_vo: Properties/C01.v Compiler/Compile.vo Base/Regex.vo Proofs/Utf8Proofs.vo Proofs/QuoteProofs.vo Proofs/EmitProofs.vo Proofs/StaticProofs.vo Proofs/StaticNukeProofs.vo Proofs/DynamicProofs.vo Proofs/SegProofs.vo
 Properties/C01.vio: Properties/C01.v Compiler/Compile.vio Base/Regex.vio Proofs/Utf8Proofs.vio Proofs/QuoteProofs.vio Proofs/EmitProofs.vio Proofs/StaticProofs.vio Proofs/StaticNukeProofs.vio Proofs/DynamicProofs.vio Proofs/SegProofs.vio
 Properties/C01.vos Properties/C01.vok Properties/C01.required_vos: Properties/C01.v Compiler/Compile.vos Base/Regex.vos Proofs/Utf8Proofs.vos Proofs/QuoteProofs.vos Proofs/EmitProofs.vos Proofs/StaticProofs.vos Proofs/StaticNukeProofs.vos Proofs/DynamicProofs.vos Proofs/SegProofs.vos
 Properties/C03.vo Properties/C03.glob Properties/C03.v.beautified Properties/C03.required_vo: Properties/C03.v Compiler/Compile.vo Proofs/EmitProofs.vo Proofs/EmitInv.vo Proofs/VarProofs.vo Proofs/PassThroughProofs.vo Proofs/DynamicProofs.vo
 Properties/C03.vio: Properties/C03.v Compiler/Compile.vio Proofs/EmitProofs.vio Proofs/EmitInv.vio Proofs/VarProofs.vio Proofs/PassThroughProofs.vio Proofs/DynamicProofs.vio
 Properties/C03.vos Properties/C03.vok Properties/C03.required_vos: Properties/C03.v Compiler/Compile.vos Proofs/EmitProofs.vos Proofs/EmitInv.vos Proofs/VarProofs.vos Proofs/PassThroughProofs.vos Proofs/DynamicProofs.vos
-Properties/C02.vo Properties/C02.glob Properties/C02.v.beautified Properties/C02.required_vo: Properties/C02.v Base/GoStr.vo Proofs/EscapeProofs.vo Compiler/Emit.vo Proofs/EmitProofs.vo Proofs/DynamicProofs.vo
-Properties/C02.vio: Properties/C02.v Base/GoStr.vio Proofs/EscapeProofs.vio Compiler/Emit.vio Proofs/EmitProofs.vio Proofs/DynamicProofs.vio
-Properties/C02.vos Properties/C02.vok Properties/C02.required_vos: Properties/C02.v Base/GoStr.vos Proofs/EscapeProofs.vos Compiler/Emit.vos Proofs/EmitProofs.vos Proofs/DynamicProofs.vos
+Properties/C02.vo Properties/C02.glob Properties/C02.v.beautified Properties/C02.required_vo: Properties/C02.v Base/GoStr.vo Proofs/EscapeProofs.vo Compiler/Emit.vo Proofs/EmitProofs.vo Proofs/DynamicProofs.vo Proofs/SegProofs.vo
+Properties/C02.vio: Properties/C02.v Base/GoStr.vio Proofs/EscapeProofs.vio Compiler/Emit.vio Proofs/EmitProofs.vio Proofs/DynamicProofs.vio Proofs/SegProofs.vio
+Properties/C02.vos Properties/C02.vok Properties/C02.required_vos: Properties/C02.v Base/GoStr.vos Proofs/EscapeProofs.vos Compiler/Emit.vos Proofs/EmitProofs.vos Proofs/DynamicProofs.vos Proofs/SegProofs.vos
 Properties/C16.vo Properties/C16.glob Properties/C16.v.beautified Properties/C16.required_vo: Properties/C16.v Compiler/Compile.vo Proofs/SrcMapProofs.vo
 Properties/C16.vio: Properties/C16.v Compiler/Compile.vio Proofs/SrcMapProofs.vio
 Properties/C16.vos Properties/C16.vok Properties/C16.required_vos: Properties/C16.v Compiler/Compile.vos Proofs/SrcMapProofs.vos
